@@ -18,6 +18,8 @@ func checkC14(w *World, r *Report, tier string) propMeta {
 	c14R2(w, r, "C14.R2")
 	c20R8(w, r, "C14.R4")
 	c14R3(w, r, "C14.R3")
+	c02R7(w, r, "C14.R5") // a snapshot handed to one query is never rewritten by another query's filtering
+	c13R2R3R4(w, r)       // a merge commits its adds and removals in exactly one Update: no snapshot can see half of it
 	return propMeta{
 		explanation: "Snapshot consistency through what is schedule-independent: (R1) MemoryMetaStore.files is touched only under mu, Update performs adds and deletes in one write-locked critical section (no unlock may precede any map access), the iterator builds its snapshot under RLock and no yield call can run with mu held; (R2) in the query region every failure edge of handle acquisition, row-data read, filter read/plan, row scan, row materialisation and a yielded MetaStore error reaches recordBlockError/recordQueryError, skipped only when the query context is already cancelled — so a file removed under a running query surfaces as an error instead of silently omitted rows; (R3) every shipped MetaStore.Update must consume both operation lists: FileSystemDataStore.Update ignores its writes (known finding F1: publication happens at Close, not at the commit, so a query or crash between the two sees outputs and sources together or neither).",
 		notDecided:  "The interleavings themselves; that a directory scan racing a merge reports an error for every vanished file (the filesystem MetaStore skips unreadable files by design — part of F1).",
